@@ -10,13 +10,16 @@ From Tftp Require Import Base.Prelude Model.Types Model.Consts Model.Codec Model
 Local Open Scope N_scope.
 Ltac Zify.zify_post_hook ::= Z.div_mod_to_equations.
 
+(** [x = 1], kept behind a name so that arithmetic tactics do not pick the hypothesis up where it is not needed. *)
+Definition rep_one (x : N) : Prop := x = 1.
+
 Section Live.
   Variables (sc : scfg) (rc : rcfg) (F : bytes).
   Hypotheses (Hwf : wf_params (s_blk sc) (s_ws sc))
              (Hblk : r_blk rc = s_blk sc) (Hws : r_ws rc = s_ws sc)
              (Hck : s_check sc = false)
              (Hsf : s_fails sc = []) (Hrf : r_fails rc = [])
-             (Hsrep : s_rep sc = 1) (Hrrep : r_rep rc = 1)
+             (Hsrep : rep_one (s_rep sc)) (Hrrep : rep_one (r_rep rc))
              (Htmo : 0 < s_tmo sc).
 
   Local Notation blk := (s_blk sc).
@@ -61,7 +64,7 @@ Section Live.
     acked_bytes out = [encode (Ack (r_bn st))] /\ r_phase st' = next /\ r_bn st' = r_bn st /\
     r_w st' = r_w st /\ r_cnt st' = r_cnt st /\ r_retry st' = r_retry st.
   Proof.
-    intros st next st' out H. unfold r_ack in H. rewrite Hrf, Hrrep, send_packet_nofail in H.
+    intros st next st' out H. unfold r_ack in H. rewrite Hrf, (Hrrep : r_rep rc = 1), send_packet_nofail in H.
     cbn [N.to_nat Pos.to_nat Pos.iter_op Nat.add repeat] in H. inversion H; subst.
     cbn [r_phase r_bn r_w r_cnt r_retry]. repeat split; reflexivity.
   Qed.
@@ -181,7 +184,7 @@ Section Live.
        window_tx 1 (s_abs st) (w_elems (s_w st))).
   Proof.
     intros st Hc Ht. unfold s_inner_top. destruct (N.leb_spec (s_tmo sc) (s_since st)); [|lia].
-    destruct Hc as (_ & _ & _ & _ & Hbn & _). rewrite Hsf, Hsrep, Hbn, send_window_nofail. reflexivity.
+    destruct Hc as (_ & _ & _ & _ & Hbn & _). rewrite Hsf, (Hsrep : s_rep sc = 1), Hbn, send_window_nofail. reflexivity.
   Qed.
 
   Lemma outer_top_out : forall st st' out, SCore sc F st ->
